@@ -489,6 +489,11 @@ func genPersist(forC12 bool) func(t *rapid.T) pcCase {
 		c.Type = rapid.SampledFrom([]string{"int", "int", "string", "struct", "bytes"}).Draw(t, "type")
 		if forC12 {
 			c.MaxSize = rapid.IntRange(1, 30).Draw(t, "maxsize")
+			if rapid.IntRange(0, 3).Draw(t, "wideWindow") == 0 {
+				// a window of several entries (1% of MaxSize), so that a much smaller target turns entries of
+				// every region away (seeded C12h)
+				c.MaxSize = rapid.SampledFrom([]int{250, 400}).Draw(t, "wideMaxsize")
+			}
 		} else {
 			c.MaxSize = rapid.SampledFrom([]int{1, 2, 5, 20, 20, 100, 100, 400}).Draw(t, "maxsize")
 		}
@@ -541,6 +546,12 @@ func genPersist(forC12 bool) func(t *rapid.T) pcCase {
 				}
 				for i := 0; i < warm; i++ {
 					c.Build = append(c.Build, pcStep{Op: "get", K: i, N: 17})
+				}
+			}
+			if c.MaxSize >= 250 {
+				// fresh unit-cost keys last: they stay in the window (2..4 entries)
+				for i := 0; i < 4; i++ {
+					c.Build = append(c.Build, pcStep{Op: "set", K: 200 + i, Cost: 1})
 				}
 			}
 		}
@@ -863,6 +874,19 @@ func execC12[K comparable, V any](c pcCase, cd pcCodec[K, V], x *verifkit.Ctx) (
 		if f := judge(fmt.Sprintf("truncated to %d bytes", n), stream[:n], n, true); f != nil {
 			return f
 		}
+		// the same prefix offered to a much smaller cache (every region overflows early, the loader has
+		// nothing left to admit long before the stream ends; seeded C12h: a load that stops reading then)
+		for _, small := range []int{1, 3} {
+			if small >= c.MaxSize {
+				continue
+			}
+			loads++
+			if r := pcLoad[K, V](stream[:n], 7, small, loadWall); r.panicked != nil {
+				return verifkit.Failf("corrupt/panic", "truncated to %d bytes, loaded into MaxSize %d: LoadCache panicked: %v", n, small, r.panicked)
+			} else if r.err == nil {
+				return verifkit.Failf("corrupt/prefix-accepted/smaller-target", "LoadCache of a proper prefix (%d of %d bytes) into a cache of MaxSize %d (saved at %d) returned nil", n, len(stream), small, c.MaxSize)
+			}
+		}
 	}
 	// 2. every single-bit flip and byte substitution at every offset
 	buf := make([]byte, len(stream))
@@ -1101,7 +1125,7 @@ func TestVerifC12(t *testing.T) {
 	vkOwnPipeline()
 	verifkit.Run(t, verifkit.Spec[pcCase]{
 		ID: "C12", Gen: genPersist(true), Exec: dispatchC12,
-		Rule:        "C12: rapid draws a cache (types, MaxSize 1..30, saver uptime 0..30 days, build script with TTLs, elapsed time before the load) and 4..12 multi-byte damages; for each generated stream the executor enumerates EVERY truncation offset, EVERY single-bit flip and the substitutions {0x00,0xFF,+1} at EVERY offset (streams <= 4 KiB; sampled plus all header/type-descriptor offsets otherwise), one byte removed / a zero byte or a copy of the byte inserted at every such offset (the rest of the stream shifts), pairs of faults (each single header/descriptor fault that was tolerated silently combined with two bit flips at each of ~200 positions spread over the stream; up to 24 such single faults per stream), the drawn multi-byte damages, the duplication, removal and pairwise swap of whole gob messages, and - with the gob type definitions hoisted to the front - every ordered selection of the block messages (blocks dropped and permuted; most streams carry a protected block); each damaged stream is loaded under the saved version and under another version; a stream is non-trivial when faults hit block header fields or gob type descriptors, or truncations fell inside the last message (always true for enumerated streams; distinct = distinct streams)",
+		Rule:        "C12: rapid draws a cache (types, MaxSize 1..30, saver uptime 0..30 days, build script with TTLs, elapsed time before the load) and 4..12 multi-byte damages; for each generated stream the executor enumerates EVERY truncation offset (each prefix is also offered to caches of MaxSize 1 and 3), EVERY single-bit flip and the substitutions {0x00,0xFF,+1} at EVERY offset (streams <= 4 KiB; sampled plus all header/type-descriptor offsets otherwise), one byte removed / a zero byte or a copy of the byte inserted at every such offset (the rest of the stream shifts), pairs of faults (each single header/descriptor fault that was tolerated silently combined with two bit flips at each of ~200 positions spread over the stream; up to 24 such single faults per stream), the drawn multi-byte damages, the duplication, removal and pairwise swap of whole gob messages, and - with the gob type definitions hoisted to the front - every ordered selection of the block messages (blocks dropped and permuted; most streams carry a protected block); each damaged stream is loaded under the saved version and under another version; a stream is non-trivial when faults hit block header fields or gob type descriptors, or truncations fell inside the last message (always true for enumerated streams; distinct = distinct streams)",
 		Assumptions: append([]string{"gob's length-prefixed framing is parsed by the harness to locate messages and the end of the metadata message"}, pcAssumptions...),
 	})
 }
